@@ -62,7 +62,7 @@ type Program struct {
 	Schedule  []string       `json:"schedule"`
 	Free      bool           `json:"free,omitempty"` // no gating at all: plain goroutines
 	MaxTimeMs int            `json:"max_time_ms"`
-	CtxMs     int            `json:"ctx_ms,omitempty"` // deadline of the context passed to Commit (0 = none)
+	CtxMs     int            `json:"ctx_ms,omitempty"` // unused (kept so that old replay files parse)
 	Note      string         `json:"note,omitempty"`
 }
 
@@ -76,9 +76,10 @@ type WOut struct {
 	Steps     int    `json:"steps"`  // gated calls performed
 	Began     bool   `json:"began"`
 	After     []int  `json:"after,omitempty"`
-	// some refetch-and-merge round was entered because a node-key Lock/DualLock failed (not after a rolled
-	// back commit attempt): the item lock records of the previous lockTrackedItems are still in the cache
+	// some refetch-and-merge round started while the item lock records of the writer's previous
+	// lockTrackedItems were still in the cache (entered through a failed node-key Lock/DualLock, not a rollback)
 	LockFailMerge bool `json:"lock_fail_merge,omitempty"`
+	Cancelled     bool `json:"cancelled,omitempty"` // stalled alone (blocked inside registry.Add): its context was cancelled
 }
 
 type Outcome struct {
@@ -117,8 +118,9 @@ type wstate struct {
 	finished bool
 	inCommit bool
 	running  bool // inside a call that blocks (see blockAfter)
+	cancel   context.CancelFunc
 	lockFail bool // the last gated call was a node-key Lock/DualLock that returned false
-	attempted bool // a node commit was attempted (reg.* / blob.* call seen) -- tells how the first refetch round was entered
+	itemLocks bool // lockTrackedItems was logged and no itemActionTracker.unlock (l2.Delete of "lock:" keys) seen since
 	txn      *sopx.Txn
 	store    btree.BtreeInterface[int, string]
 }
@@ -167,6 +169,9 @@ func (s *sched) before(ev *sopx.Event) sopx.Action {
 
 const stepTimeout = 12 * time.Second
 
+// common/transactionlogger.go: commit function enum (unknown, createStore, lockTrackedItems, ...)
+const stepLockTrackedItems = 2
+
 // wait until w parks again or finishes; false = stuck inside a call
 func (s *sched) await(w *wstate) bool {
 	select {
@@ -184,7 +189,7 @@ func (s *sched) await(w *wstate) bool {
 
 // a call that does not return within blockAfter (registry.Add spinning on an occupied slot) keeps running in
 // the background; the schedule goes on with the other writers and picks this one up again once it parks
-const blockAfter = 400 * time.Millisecond
+const blockAfter = 1500 * time.Millisecond
 
 func (s *sched) poll(w *wstate) bool {
 	select {
@@ -315,14 +320,20 @@ func Exec(p *Program, folder string) *Outcome {
 			switch {
 			case ev.Iface == "sr" && ev.Method == "GetWithTTL":
 				out.W[w.idx].Merges++
-				if !w.attempted {
+				if w.itemLocks {
+					// cause, read off the trace: this refetch round starts while the lock records written by the
+					// writer's previous lockTrackedItems are still in the cache (no rollback deleted them)
 					out.W[w.idx].LockFailMerge = true
 				}
-				w.attempted = false
+			case ev.Iface == "tlog" && ev.Method == "Add" && ev.Step == stepLockTrackedItems:
+				w.itemLocks = true
+			case ev.Iface == "l2" && ev.Method == "Delete" && len(ev.Names) > 0 && strings.HasPrefix(ev.Names[0], "lock:"):
+				w.itemLocks = false // itemActionTracker.unlock (rollback or end of commit)
 			case ev.Iface == "l2" && (ev.Method == "Lock" || ev.Method == "DualLock") && ev.Bool != nil && !*ev.Bool:
 				w.lockFail = true
-			case ev.Iface == "reg" || ev.Iface == "blob":
-				w.attempted = true
+				if len(s.trace) < 4000 {
+					s.trace = append(s.trace, ev.Txn+" =lock-failed")
+				}
 			}
 		}
 		s.mu.Unlock()
@@ -379,13 +390,10 @@ func Exec(p *Program, folder string) *Outcome {
 		w.inCommit = true
 		s.mu.Unlock()
 		w.started = true
+		cctx, cancel := context.WithCancel(ctx)
+		w.cancel = cancel
 		go func() {
-			cctx := ctx
-			if p.CtxMs > 0 {
-				var cancel context.CancelFunc
-				cctx, cancel = context.WithTimeout(ctx, time.Duration(p.CtxMs)*time.Millisecond)
-				defer cancel()
-			}
+			defer cancel()
 			err := w.txn.Commit(cctx)
 			if err != nil {
 				o.CommitErr = err.Error()
@@ -501,18 +509,62 @@ func Exec(p *Program, folder string) *Outcome {
 			commit(i)
 		}
 	}
-	deadline := time.After(time.Duration(p.MaxTimeMs+20000) * time.Millisecond)
-	for i := range ws {
-		if !ws[i].started || ws[i].finished {
-			continue
+	// Wait for the writers. A writer that lost the first-root race spins inside registry.Add for 3 minutes
+	// (fs.lockSectorRetryTimeoutDuration); it is recognised by its cause, not by a deadline: every other writer
+	// has returned or is in the same state, and nobody has returned for stallAfter. Its context is then
+	// cancelled (what a client giving up does); the commit returns the cancellation error.
+	const stallAfter = 8 * time.Second
+	hard := time.After(time.Duration(p.MaxTimeMs+60000) * time.Millisecond)
+	cancelled := false
+wait:
+	for {
+		var pending []*wstate
+		for i := range ws {
+			if ws[i].started && !ws[i].finished {
+				select {
+				case <-ws[i].done:
+					ws[i].finished = true
+				default:
+					pending = append(pending, ws[i])
+				}
+			}
+		}
+		if len(pending) == 0 {
+			break
+		}
+		cases := make(chan struct{}, len(pending))
+		stop := make(chan struct{})
+		for _, w := range pending {
+			go func(w *wstate) {
+				select {
+				case <-w.done:
+					cases <- struct{}{}
+				case <-stop:
+				}
+			}(w)
 		}
 		select {
-		case <-ws[i].done:
-			ws[i].finished = true
-		case <-deadline:
-			if out.Stuck == "" {
-				out.Stuck = "writer " + ws[i].label + " did not return"
+		case <-cases:
+			close(stop)
+		case <-time.After(stallAfter):
+			close(stop)
+			if cancelled {
+				if out.Stuck == "" {
+					out.Stuck = "writer " + pending[0].label + " did not return after its context was cancelled"
+				}
+				break wait
 			}
+			cancelled = true
+			for _, w := range pending {
+				out.W[w.idx].Cancelled = true
+				w.cancel()
+			}
+		case <-hard:
+			close(stop)
+			if out.Stuck == "" {
+				out.Stuck = "writer " + pending[0].label + " did not return"
+			}
+			break wait
 		}
 	}
 	e.Rec.Disarm()
@@ -581,7 +633,7 @@ func Run(p *Program, keepTrace bool) *Outcome {
 	go func() { outb, cerr = cmd.Output(); close(done) }()
 	select {
 	case <-done:
-	case <-time.After(time.Duration(q.MaxTimeMs+60000) * time.Millisecond):
+	case <-time.After(time.Duration(q.MaxTimeMs+90000) * time.Millisecond):
 		cmd.Process.Kill()
 		<-done
 		return &Outcome{ChildErr: "child killed after timeout"}
